@@ -21,6 +21,13 @@ type ServerDeps interface {
 	GetS3Storage() *blobstorage.S3BlobStorage
 }
 
+// quoteMailbox renders a mailbox name as an IMAP quoted string: a quote or backslash inside it is escaped
+func quoteMailbox(name string) string {
+	name = strings.ReplaceAll(name, "\\", "\\\\")
+	name = strings.ReplaceAll(name, "\"", "\\\"")
+	return "\"" + name + "\""
+}
+
 // ===== LIST =====
 
 func HandleList(deps ServerDeps, conn net.Conn, tag string, parts []string, state *models.ClientState) {
@@ -46,7 +53,7 @@ func HandleList(deps ServerDeps, conn net.Conn, tag string, parts []string, stat
 		if reference == "" {
 			rootName = ""
 		}
-		deps.SendResponse(conn, fmt.Sprintf("* LIST (\\Noselect) \"%s\" \"%s\"", hierarchyDelimiter, rootName))
+		deps.SendResponse(conn, fmt.Sprintf("* LIST (\\Noselect) \"%s\" %s", hierarchyDelimiter, quoteMailbox(rootName)))
 		deps.SendResponse(conn, fmt.Sprintf("%s OK LIST completed", tag))
 		return
 	}
@@ -71,7 +78,7 @@ func HandleList(deps ServerDeps, conn net.Conn, tag string, parts []string, stat
 	// Return matching mailboxes
 	for _, mailboxName := range matches {
 		attrs := utils.GetMailboxAttributes(mailboxName)
-		deps.SendResponse(conn, fmt.Sprintf("* LIST (%s) \"/\" \"%s\"", attrs, mailboxName))
+		deps.SendResponse(conn, fmt.Sprintf("* LIST (%s) \"/\" %s", attrs, quoteMailbox(mailboxName)))
 	}
 
 	// List role mailboxes if user has any assigned
@@ -124,16 +131,16 @@ func HandleList(deps ServerDeps, conn net.Conn, tag string, parts []string, stat
 			// Determine attributes based on the path
 			if matchedPath == "Roles" {
 				// Top-level Roles folder
-				deps.SendResponse(conn, fmt.Sprintf("* LIST (\\Noselect \\HasChildren) \"/\" \"%s\"", matchedPath))
+				deps.SendResponse(conn, fmt.Sprintf("* LIST (\\Noselect \\HasChildren) \"/\" %s", quoteMailbox(matchedPath)))
 			} else if strings.Count(matchedPath, "/") == 1 {
 				// Roles/email@domain - folder level
-				deps.SendResponse(conn, fmt.Sprintf("* LIST (\\Noselect \\HasChildren) \"/\" \"%s\"", matchedPath))
+				deps.SendResponse(conn, fmt.Sprintf("* LIST (\\Noselect \\HasChildren) \"/\" %s", quoteMailbox(matchedPath)))
 			} else {
 				// Actual mailbox: Roles/email@domain/INBOX
 				parts := strings.Split(matchedPath, "/")
 				mailboxName := parts[len(parts)-1]
 				attrs := utils.GetMailboxAttributes(mailboxName)
-				deps.SendResponse(conn, fmt.Sprintf("* LIST (%s) \"/\" \"%s\"", attrs, matchedPath))
+				deps.SendResponse(conn, fmt.Sprintf("* LIST (%s) \"/\" %s", attrs, quoteMailbox(matchedPath)))
 			}
 		}
 	}
@@ -167,7 +174,7 @@ func HandleLsub(deps ServerDeps, conn net.Conn, tag string, parts []string, stat
 		if reference == "" {
 			rootName = ""
 		}
-		deps.SendResponse(conn, fmt.Sprintf("* LSUB (\\Noselect) \"%s\" \"%s\"", hierarchyDelimiter, rootName))
+		deps.SendResponse(conn, fmt.Sprintf("* LSUB (\\Noselect) \"%s\" %s", hierarchyDelimiter, quoteMailbox(rootName)))
 		deps.SendResponse(conn, fmt.Sprintf("%s OK LSUB completed", tag))
 		return
 	}
@@ -231,13 +238,13 @@ func HandleLsub(deps ServerDeps, conn net.Conn, tag string, parts []string, stat
 
 	// Send implied parents with \Noselect first
 	for parent := range impliedParents {
-		deps.SendResponse(conn, fmt.Sprintf("* LSUB (\\Noselect) \"/\" \"%s\"", parent))
+		deps.SendResponse(conn, fmt.Sprintf("* LSUB (\\Noselect) \"/\" %s", quoteMailbox(parent)))
 	}
 
 	// Send actual subscribed mailboxes
 	for _, mailboxName := range matches {
 		attrs := utils.GetMailboxAttributes(mailboxName)
-		deps.SendResponse(conn, fmt.Sprintf("* LSUB (%s) \"/\" \"%s\"", attrs, mailboxName))
+		deps.SendResponse(conn, fmt.Sprintf("* LSUB (%s) \"/\" %s", attrs, quoteMailbox(mailboxName)))
 	}
 
 	// Include role mailboxes in LSUB (auto-subscribed)
@@ -290,16 +297,16 @@ func HandleLsub(deps ServerDeps, conn net.Conn, tag string, parts []string, stat
 			// Determine attributes based on the path
 			if matchedPath == "Roles" {
 				// Top-level Roles folder
-				deps.SendResponse(conn, fmt.Sprintf("* LSUB (\\Noselect \\HasChildren) \"/\" \"%s\"", matchedPath))
+				deps.SendResponse(conn, fmt.Sprintf("* LSUB (\\Noselect \\HasChildren) \"/\" %s", quoteMailbox(matchedPath)))
 			} else if strings.Count(matchedPath, "/") == 1 {
 				// Roles/email@domain - folder level
-				deps.SendResponse(conn, fmt.Sprintf("* LSUB (\\Noselect \\HasChildren) \"/\" \"%s\"", matchedPath))
+				deps.SendResponse(conn, fmt.Sprintf("* LSUB (\\Noselect \\HasChildren) \"/\" %s", quoteMailbox(matchedPath)))
 			} else {
 				// Actual mailbox: Roles/email@domain/INBOX
 				parts := strings.Split(matchedPath, "/")
 				mailboxName := parts[len(parts)-1]
 				attrs := utils.GetMailboxAttributes(mailboxName)
-				deps.SendResponse(conn, fmt.Sprintf("* LSUB (%s) \"/\" \"%s\"", attrs, matchedPath))
+				deps.SendResponse(conn, fmt.Sprintf("* LSUB (%s) \"/\" %s", attrs, quoteMailbox(matchedPath)))
 			}
 		}
 	}
@@ -698,6 +705,6 @@ func HandleStatus(deps ServerDeps, conn net.Conn, tag string, parts []string, st
 	}
 
 	// Send STATUS response
-	deps.SendResponse(conn, fmt.Sprintf("* STATUS \"%s\" (%s)", mailboxName, strings.Join(responseItems, " ")))
+	deps.SendResponse(conn, fmt.Sprintf("* STATUS %s (%s)", quoteMailbox(mailboxName), strings.Join(responseItems, " ")))
 	deps.SendResponse(conn, fmt.Sprintf("%s OK STATUS completed", tag))
 }
